@@ -84,3 +84,50 @@ func VerifC19_ReceivedEntriesRecordedOnce() {
 		zz.Reach("result received")
 	}
 }
+
+// VerifC19_ResultsSentWithRestartReplyAreRecorded: "the responder records the results it sent":
+// whatever the re-validation of an incoming restart request decides (accepted or rejected, with or
+// without a voucher result), if the reply that goes to the initiator carries a voucher result,
+// that result is appended - once - to the responder's result log and is what LastVoucherResult
+// returns.
+func VerifC19_ResultsSentWithRestartReplyAreRecorded() {
+	f, st, chid := verifInstalled(1, zz.Choice("earlierResults", 2))
+	zz.Assume(st.SelfPeer == st.Responder)
+	zz.Assume(!channels.IsChannelCleaningUp(st.Status) && !channels.IsChannelTerminated(st.Status))
+	zz.Assert(f.m.RegisterVoucherType(st.Vouchers[0].Type, f.val) == nil, "register")
+	f.val.Result, f.val.Err = verifArbitraryResult("val")
+	zz.Assume(f.val.Err == nil)
+	if vr := f.val.Result.VoucherResult; vr != nil {
+		// a well-formed result: a node together with a type (half-filled results are C04/C12's subject)
+		zz.Assume(vr.Voucher != nil && vr.Type != datatransfer.EmptyTypeIdentifier)
+	}
+	req := verifScalarRequest("req")
+	zz.Assume(req.MessageType == uint64(types.RestartMessage))
+	zz.SetInt(&req.TransferId, uint64(chid.ID))
+	base := st.BaseCid
+	req.BaseCidPtr = &base
+	req.SelectorPtr = st.Selector.Node
+	req.VoucherPtr = st.Vouchers[0].Voucher.Node
+	req.VoucherTypeIdentifier = st.Vouchers[0].Type
+	pre := st
+	_ = f.rcv.receiveRequest(context.Background(), chid.Initiator, req)
+	zz.Settle()
+	replies, _ := verifReplies(f)
+	zz.Assert(len(replies) == 1, "exactly one reply")
+	reply := replies[0]
+	post := f.g.VerifPeek(chid)
+	if reply.EmptyVoucherResult() {
+		zz.Assert(len(post.VoucherResults) == len(pre.VoucherResults), "no result sent: none recorded")
+		zz.Reach("reply without result")
+		return
+	}
+	n, err := reply.VoucherResult()
+	zz.Assert(len(post.VoucherResults) == len(pre.VoucherResults)+1, "a result that was sent is recorded exactly once")
+	last := post.VoucherResults[len(post.VoucherResults)-1]
+	zz.Assert(last.Type == reply.VoucherResultType() && (err != nil || last.VoucherResult.Node == n), "and it is the final entry of the log")
+	if reply.Accepted() {
+		zz.Reach("accepted restart with result")
+	} else {
+		zz.Reach("rejected restart with result")
+	}
+}
